@@ -92,6 +92,11 @@ thread_local! {
 }
 
 thread_local! {
+    /// largest application-space packet number each side has sent so far on the primary connection ([client, server]); None = 0 sent
+    pub static LAST_TX_PN: std::cell::Cell<[Option<u64>; 2]> = const { std::cell::Cell::new([None, None]) };
+}
+
+thread_local! {
     /// highest NEW_CONNECTION_ID sequence number each side has sent so far ([client, server])
     pub static ISSUED_MAX: std::cell::Cell<[u64; 2]> = const { std::cell::Cell::new([0, 0]) };
 }
